@@ -661,18 +661,17 @@ def evaluate__idiv_operator(self: XPathToken, context: ta.ContextType = None) ->
 
     try:
         result = op1 // op2
-    except (ZeroDivisionError, DivisionByZero, InvalidOperation) as err:
-        if isinstance(context, XPathSchemaContext):
-            return 1
-        elif op2 == 0:
-            raise self.error('FOAR0001') from None
-        raise self.error('FOAR0002', err) from None
-    else:
         if result >= 0 or isinstance(op1, Decimal) or \
                 isinstance(op2, Decimal) or op1 % op2 == 0:
             return int(result)
         else:
             return int(result) + 1
+    except (ZeroDivisionError, DivisionByZero, InvalidOperation, OverflowError) as err:
+        if isinstance(context, XPathSchemaContext):
+            return 1
+        elif op2 == 0:
+            raise self.error('FOAR0001') from None
+        raise self.error('FOAR0002', err) from None
 
 
 # Resolve the intrinsic ambiguity of some infix operators
